@@ -7,6 +7,9 @@ use std::cell::RefCell;
 
 thread_local! {
     static HOOK: RefCell<Option<Box<dyn FnMut(&'static str)>>> = const { RefCell::new(None) };
+    /// set by `yield_point`, consumed by the next `lock_point`: a labelled yield point directly in front of a
+    /// lock acquisition already covers that acquisition
+    static JUST_YIELDED: std::cell::Cell<bool> = const { std::cell::Cell::new(false) };
 }
 
 /// Installs (or removes, with `None`) the callback for the current thread
@@ -14,8 +17,20 @@ pub fn set_thread_hook(hook: Option<Box<dyn FnMut(&'static str)>>) {
     HOOK.with(|slot| *slot.borrow_mut() = hook);
 }
 
+/// Called by the lock-acquisition wrappers (see `HookedLock` in impls/memory.rs): yields unless a labelled
+/// `yield_point` ran since the previous acquisition, so that every acquisition is a yield point exactly once —
+/// including acquisitions that have no labelled yield point in front of them.
+pub fn lock_point(label: &'static str) {
+    if JUST_YIELDED.with(|f| f.replace(false)) {
+        return;
+    }
+    yield_point(label);
+    JUST_YIELDED.with(|f| f.set(false));
+}
+
 /// Called by the library immediately before a lock acquisition
 pub fn yield_point(label: &'static str) {
+    JUST_YIELDED.with(|f| f.set(true));
     HOOK.with(|slot| {
         // take the callback out while it runs so that a re-entrant call is a no-op
         let taken = slot.borrow_mut().take();
